@@ -943,19 +943,32 @@ func c07NewPodObj(p *c07Pod, sh *c07Shape) *corev1.Pod {
 		sort.Strings(names)
 		for i, k := range names {
 			q := sh.requests[corev1.ResourceName(k)]
-			v := q.Value()
-			part := v / 2
-			if i%2 == 1 {
-				part = v - v/3
+			// whole amounts are split into whole amounts (extended resources such as nvidia.com/gpu must stay integral
+			// per container); a fractional share is split exactly, in milli units
+			v, unit := q.MilliValue(), int64(1000)
+			if v%1000 != 0 {
+				unit = 1
 			}
-			if v < 2 {
+			u := v / unit
+			part := u / 2
+			if i%2 == 1 {
+				part = u - u/3
+			}
+			if u < 2 {
 				part = 0
 			}
+			part *= unit
+			mk := func(m int64) resource.Quantity {
+				if m%1000 == 0 {
+					return *resource.NewQuantity(m/1000, q.Format)
+				}
+				return *resource.NewMilliQuantity(m, q.Format)
+			}
 			if part > 0 {
-				a[corev1.ResourceName(k)] = *resource.NewQuantity(part, q.Format)
+				a[corev1.ResourceName(k)] = mk(part)
 			}
 			if v-part > 0 {
-				b[corev1.ResourceName(k)] = *resource.NewQuantity(v-part, q.Format)
+				b[corev1.ResourceName(k)] = mk(v - part)
 			}
 		}
 		pod.Spec.Containers = []corev1.Container{{Name: "main", Resources: corev1.ResourceRequirements{Requests: a, Limits: a.DeepCopy()}},
